@@ -662,7 +662,7 @@ fn stalled_log_sink(ctx: &Ctx, out: &mut Out, rng: &mut Rng) {
     crate::inproc::set_rcvbuf(std::os::unix::io::AsRawFd::as_raw_fd(&sock), 1 << 20);
     sock.set_read_timeout(Some(Duration::from_millis(50))).unwrap();
     let addr: std::net::SocketAddr = format!("127.0.0.1:{}", sp.cfg.port).parse().unwrap();
-    let stall = Duration::from_millis(6_500);
+    let stall = Duration::from_millis(8_500);
     let t_stall = std::time::Instant::now();
     let mut pending: Vec<(Vec<u8>, Vec<u8>, Proto)> = Vec::new();
     let mut sent = 0;
@@ -693,7 +693,7 @@ fn stalled_log_sink(ctx: &Ctx, out: &mut Out, rng: &mut Rng) {
                 let age_ms = age_units * 1000 / unit;
                 worst = worst.max(age_ms);
                 // the reply left the server no earlier than it was signed and no later than now
-                if age_ms > 5_000 + 1_500 {
+                if age_ms > 5_000 + 1_000 {
                     stale += 1;
                 }
             }
@@ -709,7 +709,7 @@ fn stalled_log_sink(ctx: &Ctx, out: &mut Out, rng: &mut Rng) {
     if stale > 0 {
         out.violation(
             "C11 running-server midpoint-older-than-radius stalled-log-sink",
-            &format!("the server's log sink stalled for 6.5 s (batch_size 1): {} of {} replies arrived carrying a clock reading more than radius (5 s) + 1.5 s older than their arrival (worst {} ms)", stale, answered, worst),
+            &format!("the server's log sink stalled for 8.5 s (batch_size 1): {} of {} replies arrived carrying a clock reading more than radius (5 s) + 1 s older than their arrival (worst {} ms)", stale, answered, worst),
             json!({"kind":"stalled-log-sink"}),
         );
     }
